@@ -258,6 +258,48 @@ def _strip_cast(ctx, upd, val, rule, site):
     return val
 
 
+def _makespan_by_cases(ctx, mk, upd, sop) -> bool:
+    """update written as a case split on whether the operation extends the schedule:
+    on every returning path exactly one reward is appended and
+      - where the path knows `end <= current` (or takes no store): reward 0 / current - current, makespan kept;
+      - where it knows `end > current`: reward current - end, makespan := end.
+    That is reward = current - max(current, end) on both.  True when every path fits (and reports ok)."""
+    from .common import path_atoms
+
+    chk = ctx.chk
+    cur, end = "self.current_makespan", f"{sop}.end_time"
+    eng = ctx.engine(relevant=lambda e: e.kind in ("branch", "write", "call", "return"), max_depth=0)
+    n = 0
+    for p in eng.paths(upd, mk):
+        if p.outcome == "raise":
+            continue
+        apps = [e for e in p.events if e.kind == "write" and e.data.get("method") == "append" and "rewards" in ast.unparse(e.node)]
+        stores = [e for e in p.events if e.kind == "write" and isinstance(e.node, ast.Assign) and ast.unparse(e.node.targets[0]) == cur]
+        if len(apps) != 1 or len(stores) > 1:
+            return False
+        atoms = path_atoms(ctx, p.events)
+        grows = atoms.get(f"{cur} < {end}")  # True: end > current; False: end <= current
+        if grows is None and atoms.get(f"{end} < {cur}") is True:
+            grows = False
+        if grows is None:
+            return False
+        arg = ctx.norm.xtext(upd, apps[0].node.args[0]).replace(" ", "") if apps[0].node.args else ""
+        if grows:
+            if len(stores) != 1 or ctx.norm.xtext(upd, stores[0].node.value) != end:
+                return False
+            before = p.events.index(apps[0]) < p.events.index(stores[0])
+            if not (before and arg == f"{cur}-{end}".replace(" ", "")):
+                return False
+        else:
+            if stores or arg not in ("0", f"{cur}-{cur}".replace(" ", "")):
+                return False
+        n += 1
+    if n < 2:
+        return False
+    chk.ok("R13.c", upd.qualname, upd.loc(), f"{n} cases: reward = previous makespan - max(previous, scheduled end), makespan advanced to that max")
+    return True
+
+
 def _makespan_shape(ctx, mk):
     chk = ctx.chk
     upd = mk.methods.get("update")
@@ -268,6 +310,8 @@ def _makespan_shape(ctx, mk):
     app = [n for n in own_nodes(upd.node) if isinstance(n, ast.Call) and ast.unparse(n.func) == "self.rewards.append"]
     store = [n for n in own_nodes(upd.node) if isinstance(n, ast.Assign) and ast.unparse(n.targets[0]) == "self.current_makespan"]
     if len(app) != 1 or len(store) != 1:
+        if _makespan_by_cases(ctx, mk, upd, sop):
+            return
         raise AnalysisError("MakespanReward.update: append/store not found exactly once")
     val = _strip_cast(ctx, upd, _expand(ctx, upd, app[0].args[0]), "R13.c", app[0])
     if val is None:
@@ -421,6 +465,11 @@ def _idle_shape(ctx, it):
         if isinstance(d, ast.BinOp) and isinstance(d.op, ast.Sub) and ctx.norm.xtext(upd, d.left) == f"{sop}.start_time":
             saw_gap = True
             prev = _expand(ctx, upd, d.right)
+            if isinstance(prev, ast.IfExp):
+                # `<previous end> if <there is a previous operation> else 0`: judge the previous end
+                arms = [x for x in (prev.body, prev.orelse) if not (isinstance(x, ast.Constant) and x.value == 0)]
+                if len(arms) == 1:
+                    prev = _expand(ctx, upd, arms[0])
             if isinstance(prev, ast.Name):
                 # `release = 0` when the machine had nothing before, else the previous end: judge the latter
                 vs = [v for k_, v, _s in ctx.flow.defs(upd).of(prev.id) if k_ == "value" and not (isinstance(v, ast.Constant) and v.value == 0)]
